@@ -8,7 +8,8 @@
 (* A program is a sequence of fragments [kind, ctx]: kind = the fixable    *)
 (* diagnostic the fragment raises (missing_f, use_fstrings,                *)
 (* unused_variable, too_many_positional_args, unused_ignore, missing_await,*)
-(* unused comprehension variable), ctx = the                               *)
+(* unused comprehension variable, asynq's task_needs_yield and             *)
+(* impure_async_call), ctx = the                                           *)
 (* syntactic context it is placed in (plain, inside an if block, spread    *)
 (* over several lines, followed by a comment, nested in a dict display    *)
 (* with ** unpacking / a lambda with keyword-only parameters / a call with *)
@@ -23,7 +24,8 @@
 EXTENDS Naturals, Sequences, FiniteSets, TLC
 
 Kinds == {"missing_f", "use_fstrings", "unused_variable", "too_many_positional_args", "unused_ignore",
-          "missing_await", "unused_comp"}     \* unused_comp: unused comprehension variable, replaced by `_`
+          "missing_await", "unused_comp",     \* unused_comp: unused comprehension variable, replaced by `_`
+          "task_needs_yield", "impure_async_call"}   \* asynq: `f.asynq(x)` -> `yield f.asynq(x)`, `f(x)` -> `yield f.asynq(x)`
 Contexts == {"plain", "in_if", "multiline", "comment", "dict_unpack", "kwonly_lambda", "starred_call", "listcomp"}
 \* contexts that make sense for a kind
 ExprContexts == {"multiline", "dict_unpack", "kwonly_lambda", "starred_call", "listcomp"}   \* the fixable expression is nested
@@ -32,9 +34,9 @@ ExprContexts == {"multiline", "dict_unpack", "kwonly_lambda", "starred_call", "l
 Allowed(k, c) == /\ ~(c \in ExprContexts /\ k \in {"unused_variable", "unused_ignore"})
                  /\ ~(k = "missing_f" /\ c \in {"kwonly_lambda", "listcomp"})
                  \* (missing_await is raised on an expression STATEMENT: only the statement-level contexts)
-                 /\ ~(k = "missing_await" /\ c \in ExprContexts \ {"multiline"})
+                 /\ ~(k \in {"missing_await", "task_needs_yield", "impure_async_call"} /\ c \in ExprContexts \ {"multiline"})
 
-Later == {"missing_await", "unused_comp"}
+Later == {"missing_await", "unused_comp", "task_needs_yield", "impure_async_call"}
 CONSTANTS MaxFragments
 
 VARIABLES prog, stage, pending, steps
@@ -47,6 +49,7 @@ AddFragment ==
           /\ Allowed(k, c)
           \* the kinds added later are combined with each other only (their layouts are the subject of FixLayout.tla)
           /\ (prog # << >>) => ((k \in Later) <=> (prog[1].kind \in Later))
+          /\ (prog # << >> /\ k \in Later) => c = "plain"
           /\ prog' = Append(prog, [kind |-> k, ctx |-> c])
     /\ UNCHANGED <<stage, pending, steps>>
 \* order in which the diagnostics are emitted (and hence fixed): unused_ignore is reported after the whole
